@@ -153,7 +153,9 @@ class Operator:
                     grounded_conditional_effect.ground_conditional_effect(
                         extended_parameter_map
                     )
-                    if grounded_conditional_effect.antecedents_hold(previous_state):
+                    if grounded_conditional_effect.antecedents_hold(
+                        previous_state, problem_objects=self.problem_objects
+                    ):
                         self.logger.debug(
                             "The antecedents of the universal effect hold."
                         )
@@ -204,7 +206,9 @@ class Operator:
 
         for effect in self.grounded_effects:
             self.logger.debug(f"Applying the effect: {str(effect)}")
-            if not skip_validation and not effect.antecedents_hold(previous_state):
+            if not skip_validation and not effect.antecedents_hold(
+                previous_state, problem_objects=self.problem_objects
+            ):
                 self.logger.debug(
                     "The antecedents for the effect do not hold so skipping the effect."
                 )
